@@ -82,7 +82,7 @@ def setup_state(binary, cfg, setup_ops, tag):
             live.discard(e["op"]["h"])
     fl = reset["obs"]["fl"]
     sent = "WS" if not fl else "W(NIL, %d)" % fl[0][0]
-    hs = " @@ ".join("(%d :> [mo |-> %d, ms |-> %d, po |-> %d, ps |-> %d, pat |-> %d, t |-> -1])" % (
+    hs = " @@ ".join("(%d :> [mo |-> %d, ms |-> %d, po |-> %d, ps |-> %d, pat |-> %d, t |-> -1, wat |-> 0, wv |-> W0])" % (
         h, m["mo"], m["ms"], m["po"], m["ps"], m["pat"]) for h, m in sorted(handles.items()) if h in live)
     if not hs:
         hs = "[x \\in {} |-> 0]"
@@ -95,6 +95,9 @@ def tla_op(op):
     parts = []
     for k, v in op.items():
         if isinstance(v, bool):
+            continue
+        if isinstance(v, list):
+            parts.append("%s |-> <<%s>>" % (k, ", ".join(str(x) for x in v)))
             continue
         parts.append("%s |-> %s" % (k, ('"%s"' % v) if isinstance(v, str) else str(v)))
     return "[" + ", ".join(parts) + "]"
